@@ -499,10 +499,15 @@ def rep_histories(codes):
             for n in (["x:movl $0, %ecx"], ["x:movl $1, %ecx"], ["x:movl $3, %ecx"], ["x:movl $5, %ecx"],
                       # the count also lives somewhere else (copied to / from another register, through the stack)
                       ["x:movl $3, %ecx", "x:movl %ecx, %edx"], ["x:movl $3, %edx", "x:movl %edx, %ecx"], ["x:pushl $0x55", "x:movl $3, %ecx", "x:pushl %ecx", "x:popl %edx"]):
-                for r in reps:
-                    h = ([d] if sname == "symbolic-data" else []) + setup + n + [r]
-                    if all(x in codes for x in h):
-                        out.append(h)
+                # the zero flag the rep instruction finds on entry: symbolic, concretely 1 (xor) or concretely "count == 0" (test): the
+                # architectural termination test looks at ZF only AFTER a step of cmps / scas, never before the first one
+                for zf_entry in ([], ["x:xorl %edx, %edx"], ["x:testl %ecx, %ecx"]):
+                    if zf_entry and len(n) > 1:
+                        continue
+                    for r in reps:
+                        h = ([d] if sname == "symbolic-data" else []) + setup + n + zf_entry + [r]
+                        if all(x in codes for x in h):
+                            out.append(h)
     # concrete sub-register arithmetic whose folding depends on the operand width
     for h in (["x:movb $0x81, %bl", "x:rorb $12, %bl"], ["x:movb $0x81, %bl", "x:rorb $7, %bl"], ["x:movw $0x8001, %bx", "x:rorw $20, %bx"], ["x:movw $0x8001, %bx", "x:rorw $9, %bx"],
               ["x:movl $12, %ecx", "x:movb $0x81, %bl", "x:rorb %cl, %bl"], ["x:movl $20, %ecx", "x:movw $0x8001, %bx", "x:rorb %cl, %bl"], ["x:movl $0x12345678, %eax", "x:cwtl"],
@@ -544,6 +549,21 @@ def exhaustive_histories(codes, bases):
             for s2 in stores:
                 for l in loads[::1]:
                     out.append([s1, s2, l])
+        # three stores: any store, any second store, then a store at the second one's address that is at least as wide (the "covering"
+        # store: the cell at that address is replaced, and whatever else it overlaps must still be trimmed); byte loads everywhere and the
+        # two aligned dword loads read the result back
+        rb = [l for l in loads if int(l.split(":")[2]) == 8 or (int(l.split(":")[2]) == 32 and int(l.split(":")[3]) in (0, 4))]
+        for s1 in stores:
+            for s2 in stores:
+                w2, o2 = int(s2.split(":")[2]), int(s2.split(":")[3])
+                for w3 in (8, 16, 32):
+                    if w3 < w2:
+                        continue
+                    s3 = "store:%s:%d:%d:%s" % (b, w3, o2, DREGS[w3][((o2 + w3) % 3 + 1) % 3])
+                    if s3 not in codes:
+                        continue
+                    for l in rb:
+                        out.append([s1, s2, s3, l])
         # tilings of one dword by three or four narrower stores (a string written byte by byte, a word and two bytes, ...), constants and
         # registers, written upwards and downwards, optionally on top of an earlier constant dword; then one load of every width at offsets 0..3
         for parts in ([1, 1, 1, 1], [2, 1, 1], [1, 2, 1], [1, 1, 2], [2, 2]):
@@ -571,7 +591,7 @@ def main(run):
     steps = build_tables()
     codes = assemble(run, steps)
     run.rule = ("histories: Hypothesis lists (1..%d steps) over %d assembled steps (stores/loads of width 8/16/32 at offsets 0..7 from a constant or the symbolic base, "
-                "integer instructions, push/pop, rep string instructions with concrete count) + exhaustive <= 2 stores + 1 load (%s base kinds); invariant after every step on 3 valuations. "
+                "integer instructions, push/pop, rep string instructions with concrete count) + exhaustive <= 2 stores + 1 load, 3 stores with a covering third store, dword tilings (%s base kinds); invariant after every step on 3 valuations. "
                 "non-trivial = a history with a store and a later load that held; distinct = the step list" % (run.pick(8, 12), len(codes), run.pick("symbolic", "both")))
     run.assumptions = ["the model executes the same lifted lists with vlib/irsem.py (C04's lifter findings cannot leak in)", "constant-base and symbolic-base addresses are never mixed in one history",
                        "valuations place init_esi / init_edi / init_esp in disjoint regions (the machine treats different symbolic bases as non-aliasing by design)",
@@ -588,7 +608,7 @@ def main(run):
         keys = collect_failing(run, hs, codes)
         os.makedirs(os.path.dirname(BASELINE), exist_ok=True)
         with open(BASELINE, "w") as f:
-            json.dump({"what": "histories of <= 2 stores + 1 load (width 8/16/32, offsets 0..7, constant and symbolic base) whose final load disagrees with the byte model on the unchanged tree",
+            json.dump({"what": "histories of <= 2 stores (or 3 with a covering third store, or a tiling of one dword) + 1 load (width 8/16/32, offsets 0..7, constant and symbolic base) whose final load disagrees with the byte model on the unchanged tree",
                        "failing": sorted(keys)}, f, indent=0)
         print("wrote %d failing configurations of %d" % (len(keys), len(hs)))
         baseline = set(keys)
